@@ -130,6 +130,27 @@ func (fr *Frame) callFunction(st *State, fn *ssa.Function, args []Val, binds []V
 	if fn == root.fn && fn != nil {
 		fr.oblige(st, "termination", "recursive-call-without-variant", False, nil, pos)
 	}
+	// call-site assertions of the function under verification
+	if fr.parent == nil && fr.fc != nil && fr.fc.CallSites != nil {
+		if cls := fr.fc.CallSites[fn.Name()]; len(cls) > 0 {
+			sc := fr.loopScope(st, st.alloc)
+			for i, a := range args {
+				sc.vars[fmt.Sprintf("arg%d", i)] = a
+			}
+			for i, c := range cls {
+				parts := SplitConj(c.E)
+				for k, p := range parts {
+					name := fn.Name() + "." + clauseName(c, i)
+					if len(parts) > 1 {
+						name = fmt.Sprintf("%s.%d", name, k+1)
+					}
+					cc := *c
+					cc.E, cc.Text = p, ExprString(p)
+					fr.oblige(st, "callsite", name, fr.evalBool(sc, p), &cc, pos)
+				}
+			}
+		}
+	}
 	if fc != nil && !fc.Inline {
 		fc.Used = true
 		return fr.applyContract(st, fc, sig, args, pos, shortKey(key))
@@ -275,6 +296,14 @@ func (fr *Frame) execInvoke(st *State, cc *ssa.CallCommon, args []Val, pos token
 	}
 	if impls := fr.en.closedImpls(recvT, m); len(impls) > 0 {
 		return fr.devirtualise(st, cc, impls, args, pos)
+	}
+	if m.Pkg() != nil {
+		for _, e := range effectFreePkgs {
+			if strings.HasPrefix(m.Pkg().Path(), e) {
+				fr.top.note("interface call " + key + " assumed effect-free (logging/metrics)")
+				return fr.freshResults(st, cc.Signature(), m.Name())
+			}
+		}
 	}
 	fr.top.note("interface call " + key + " without contract: heap havocked")
 	return fr.havocCall(st, cc.Signature(), m.Name())
@@ -469,6 +498,7 @@ func (fr *Frame) execAppend(st *State, cc *ssa.CallCommon, pos token.Pos) Val {
 
 // copyAppend writes the n elements of e at obj[at...]; small constant n uses stores.
 func (fr *Frame) copyAppend(st *State, obj, at Term, e Val, n Term, et types.Type) {
+	_ = fr
 	if c, ok := constLen(n); ok && c <= 8 {
 		for i := int64(0); i < c; i++ {
 			v := fr.loadElem(st, e.Obj(), IAdd(e.Off(), IntT(i)), et, 0, -1, et)
